@@ -5,6 +5,7 @@ import (
 
 	"github.com/nyaruka/goflow/envs"
 	"github.com/nyaruka/goflow/excellent/types"
+	"github.com/shopspring/decimal"
 )
 
 // Concatenate joins two text values together.
@@ -103,8 +104,22 @@ var Divide = numericalBinary(func(env envs.Environment, num1 *types.XNumber, num
 //
 // @operator exponent "^"
 var Exponent = numericalBinary(func(env envs.Environment, num1 *types.XNumber, num2 *types.XNumber) types.XValue {
-	return types.NewXNumber(num1.Native().Pow(num2.Native()))
+	base, exp := num1.Native(), num2.Native()
+
+	// the size of the result grows with the exponent so reject exponents that would give a result that we can't
+	// reasonably calculate or even represent
+	if !base.IsZero() {
+		baseSize := int64(base.NumDigits()) + int64(max(base.Exponent(), -base.Exponent()))
+
+		if exp.Abs().Mul(decimal.New(baseSize, 0)).GreaterThan(maxExponentSize) {
+			return types.NewXErrorf("exponent %s is too large", num2.Render())
+		}
+	}
+
+	return types.NewXNumber(base.Pow(exp))
 })
+
+var maxExponentSize = decimal.New(1_000_000, 0)
 
 // LessThan returns true if the first number is less than the second.
 //
